@@ -291,7 +291,7 @@ def run_unit(unit: Unit, repo: str = REPO, probe: bool = True, tag: str = '', _d
                         if ob.startswith(fid + '#') and not ob.endswith('#proof-hint') and ob not in seen:
                             seen.add(ob)
                             fl = Failure(unit.name, ob, 'not verifiable: ' + d.message.split(' (note')[0], exits, d.rendered)
-                            fl.props = unit.props_of_failure(fl)
+                            fl.props = sorted(set(unit.props_of_failure(fl)) | set(unit.props_of(ob)))
                             und.append(fl)
             if not any_fn:
                 # the error is not inside a function under contract (a new type, a changed import ..): every clause of the unit is undecided
@@ -299,7 +299,7 @@ def run_unit(unit: Unit, repo: str = REPO, probe: bool = True, tag: str = '', _d
                 for ob in ur.obligations:
                     if not ob.endswith('#proof-hint'):
                         fl = Failure(unit.name, ob, 'not verifiable: ' + (d0.message.split(' (note')[0] if d0 else 'front-end failure'), [], d0.rendered if d0 else '')
-                        fl.props = unit.props_of_failure(fl)
+                        fl.props = sorted(set(unit.props_of_failure(fl)) | set(unit.props_of(ob)))
                         und.append(fl)
             if und:
                 ur.undecided_failures = und
